@@ -153,6 +153,13 @@ def one_case(ctx, r, desc):
             cands = tracked
             k = r.randint(1, min(4, len(cands))) if cands else 0
             diff_files = r.sample(cands, k) if k else []
+        # the diff may (also, or only) delete a file: a diff that consists of deletions alone names no file to examine, and the
+        # positional globs still select theirs
+        gone = None
+        if mode == "pipe-diff" and r.random() < 0.2:
+            gone = "gone_%d.py" % r.randrange(100)
+            if r.random() < 0.6:
+                diff_files = []
         terminal = mode in ("pty", "env")
         # one of the diff's files may also be renamed (git mv) in the same change: the diff then names it `--- a/<old>` / `+++ b/<new>`
         # and the file in scope is the *new* path
@@ -221,6 +228,8 @@ def one_case(ctx, r, desc):
                 os.unlink(os.path.join(root, p))
                 os.symlink(os.path.relpath(os.path.join(root, store), os.path.dirname(os.path.join(root, p))), os.path.join(root, p))
                 links.append(p)
+        if gone:
+            run.write_files(root, {gone: healthy(gone, "gone").encode()})
         run.git(root, "add", "-A")
         run.git(root, "commit", "-q", "-m", "base")
         diff = b""
@@ -239,9 +248,12 @@ def one_case(ctx, r, desc):
                     data = data + b"appended\n"
                 with open(full, "wb") as f:
                     f.write(data)
+            if gone:
+                run.git(root, "rm", "-q", gone)
             if ren:
                 os.makedirs(os.path.dirname(os.path.join(root, ren[1])), exist_ok=True)
                 run.git(root, "mv", ren[0], ren[1])
+            if ren or gone:
                 diff = run.git(root, "diff", "HEAD", "-M", "-U%d" % r.choice([0, 1, 3]))
             else:
                 diff = run.git(root, "diff", "-U%d" % r.choice([0, 1, 3]))
@@ -289,9 +301,10 @@ def one_case(ctx, r, desc):
     special = sorted({seg for p in diff_files for seg in p.split("/")[:-1] if seg in ("a", "b", "dir with space", "dots.in.name")})
     sets = {"mode": [mode], "mechanisms": sorted(mechanisms), "cwd": ["root" if not cwd_rel else "subdir"],
             "symlinks": ["in-scope" if p in scope else "out-of-scope" for p in links],
+            "deletion_in_diff": ([] if not gone else ["only-deletions" if not diff_files else "with-other-files"]),
             "rename": ([] if not ren else ["same-dir" if os.path.dirname(ren[0]) == os.path.dirname(ren[1]) else "other-dir"]),
             "diff_dirs": special, "nglobs_nignores": ["%d/%d" % (len(globs), len(ignores))]}
-    wit = {"paths": paths, "gitignore": gitignore, "argv": argv, "mode": mode, "cwd": cwd_rel, "diff_files": diff_files, "symlinks": links, "renamed": ren, "probe": probe,
+    wit = {"paths": paths, "gitignore": gitignore, "argv": argv, "mode": mode, "cwd": cwd_rel, "diff_files": diff_files, "symlinks": links, "renamed": ren, "probe": probe, "deleted_by_diff": gone,
            "expected_scope": want, "diff": diff.decode("utf-8", "replace")[:3000], "desc": desc}
 
     def bad(sig, summary):
